@@ -131,6 +131,13 @@ pub fn script_address(script: &bitcoin::Script, network: Network) -> Option<Stri
 /// Protocol text of a block:
 /// `hash,prev,diff,time,bits,header80,tx;tx;..` with
 /// tx = `txid:cb:vsize:in|in..:out|out..`, in = `txid.vout`, out = `value.addr-or-dash.opret`.
+/// consensus encoding of the block, hex (decoded by the model itself: `Btc.BlockCodec`)
+pub fn block_hex(b: &Block) -> String {
+    let mut v = vec![];
+    b.consensus_encode(&mut v).unwrap();
+    hex::encode(v)
+}
+
 pub fn block_text(b: &Block, network: Network) -> String {
     let hdr = b.header();
     let mut txs: Vec<String> = vec![];
